@@ -208,6 +208,35 @@ fn drive_fut2<Tv>(mode: Mode, w: &W, fut: &mut BF<Tv>, what: &str, st: &mut Stat
     vfail!(if mode == Mode::Contract { "C12/never-completes" } else { "C11/never-completes" }, "{}: did not complete within {} rounds", what, MAX_ROUNDS)
 }
 
+/// the leaf whose `call` the reference composition makes inside the combined service's `call`
+/// itself (`let fa = a.call(req); async move { b.call(fa.await?).await }`: the first stage is
+/// started at call time, so requests reach it in the order of the calls, whatever the order in
+/// which the response futures are polled or dropped). `None` where a closure of the harness decides.
+fn sync_leaf(t: &T) -> Option<usize> {
+    match t {
+        T::Leaf { id } => Some(*id),
+        T::FnLeaf { .. } | T::ApplyFn { .. } => None,
+        T::AndThen(a, _) => sync_leaf(a),
+        T::Map { t, .. } | T::MapErr { t, .. } | T::Pre { t, .. } => sync_leaf(t),
+        T::BoxService(t) | T::RcService(t) | T::Rc(t) | T::Boxed(t) | T::RefCell(t) | T::Ref(t) | T::Split(t) | T::RefMut(t) => sync_leaf(t),
+    }
+}
+
+/// the leaf factories whose `new_service` the reference composition calls inside the combined
+/// factory's `new_service` itself
+fn sync_fac_leaves(f: &F, out: &mut Vec<usize>) {
+    match f {
+        F::Leaf { id } => out.push(*id),
+        F::AndThen(a, b) => {
+            sync_fac_leaves(a, out);
+            sync_fac_leaves(b, out);
+        }
+        F::Map { t, .. } | F::MapErr { t, .. } | F::MapInitErr { t, .. } | F::MapConfig { t, .. } | F::UnitConfig { t, .. } | F::ApplyFn { t, .. } | F::Transform { t, .. } => sync_fac_leaves(t, out),
+        F::BoxFactory(t) | F::Rc(t) | F::Arc(t) => sync_fac_leaves(t, out),
+        F::FnCfg { .. } | F::Fn { .. } | F::ApplyCfg { .. } | F::ApplyCfgFactory { .. } => {}
+    }
+}
+
 /// Serve the requests on `svc`, judged against expression `expr`.
 fn serve(mode: Mode, w: &W, svc: &H, expr: &T, reqs: &[u32], scripts: &[LeafScript], st: &mut Stats, ref_calls: &mut Vec<usize>) -> Result<(), Fail> {
     for (n, req) in reqs.iter().enumerate() {
@@ -216,6 +245,13 @@ fn serve(mode: Mode, w: &W, svc: &H, expr: &T, reqs: &[u32], scripts: &[LeafScri
         }
         let log_start = w.log.borrow().len();
         let mut fut: BF<Result<u32, u32>> = svc.call(*req);
+        if mode == Mode::Functional {
+            if let Some(leaf) = sync_leaf(expr) {
+                let started = w.log.borrow()[log_start..].iter().any(|e| matches!(e, Ev::Call { leaf: l, .. } if *l == leaf));
+                vensure!(started, "C11/first-stage-deferred",
+                    "request {} ({}): `call` returned without having called the first stage (leaf {}); the reference composition starts it inside `call`, so that requests reach it in call order even when the response futures are polled in another order or dropped unpolled", n, req, leaf);
+            }
+        }
         let got = drive_fut2(mode, w, &mut fut, &format!("call future of request {} ({})", n, req), st, false)?;
         drop(fut);
         let mut want_log = vec![];
@@ -314,6 +350,15 @@ fn check_fac_inner(mode: Mode, c: &FacCase) -> CaseResult {
         } else {
             fac.as_ref().unwrap().new_service(c.cfg)
         };
+        if mode == Mode::Functional {
+            let mut leaves = vec![];
+            sync_fac_leaves(&tree, &mut leaves);
+            for leaf in leaves {
+                let started = w.log.borrow()[log_start..].iter().any(|e| matches!(e, Ev::NewService { leaf: l, .. } if *l == leaf));
+                vensure!(started, "C11/init-deferred",
+                    "build {}: `new_service` returned without having called the inner factory (leaf {}); the reference composition calls it inside `new_service`, so that configs reach it in call order whatever the order in which the init futures are polled", build, leaf);
+            }
+        }
         let res = drive_fut(mode, &w, &mut fut, &format!("new_service future (build {})", build), &mut st)?;
         drop(fut);
         let log: Vec<Ev> = w.log.borrow()[log_start..].to_vec();
